@@ -29,6 +29,18 @@ CLAIMS = {
         technique="TLA+ spec + TLC exhaustive enumeration, every transition replayed on the implementation",
         design_ref="6/C19",
     ),
+    "C16": dict(
+        engine="sequential-specs",
+        level="model_checking",
+        text="specs/index/NameIndex.tla builds the trie the way PrefixTree.insert does next to the naive definition (names containing the "
+             "query contiguously) and the register next to the bag of calls; TLC checks lookup = naive scan, membership = non-empty lookup, "
+             "order independence and exact counters for all queries after every operation sequence (exhaustive for small constants, "
+             "-simulate for larger ones). A transition cover of the state graph and every simulated behaviour is replayed on the real "
+             "PrefixTree/EdgeRegister with the projected trie structure and every query/counter read-out compared after each step",
+        note="names are parser-shaped as the property states; nodes/workers are stubs carrying name, bridged_form, id",
+        technique="TLA+ spec + TLC (exhaustive + simulation), transition cover and behaviours replayed on the implementation",
+        design_ref="6/C16",
+    ),
 }
 
 NOT_YET = "machinery for this property is not built yet in this revision (see DESIGN.md section 9 build order)"
